@@ -468,3 +468,15 @@ def nonzero_test(g, totals):
     if n[0] == "cmp" and n[1] == "!=":
         return (n[2] in totals and const_value(n[3]) == 0) or (n[3] in totals and const_value(n[2]) == 0)
     return n in totals
+
+
+def gate_on(t, cond):
+    """If t is a gate on (any spelling of) `cond`, return (value when cond holds, value otherwise)."""
+    from .boolalg import literal
+    if not (isinstance(t, tuple) and t and t[0] == "gate"):
+        return None
+    a, pol = literal(t[1])
+    ca, cpol = literal(cond)
+    if a != ca:
+        return None
+    return (t[2], t[3]) if pol == cpol else (t[3], t[2])
